@@ -221,8 +221,8 @@ def _frame_cols(n, tag):
 
 @st.composite
 def h5ad_files(draw, encs=('csr', 'csc', 'dense'), n_cols=None, dtype=None, layers=(None, 'raw'), min_rows=1,
-               layouts=('anndata', 'anndata', 'small_chunks', 'contiguous')):
-    x = draw(small_dense(n_cols=n_cols, min_rows=min_rows))
+               layouts=('anndata', 'anndata', 'small_chunks', 'contiguous'), max_rows=7, max_cols=6):
+    x = draw(small_dense(n_cols=n_cols, min_rows=min_rows, max_rows=max_rows, max_cols=max_cols))
     nr, nc = len(x), len(x[0])
     scheme = draw(st.sampled_from(['c', 'num', 'uni']))
     cells = {'c': [f'c{i}' for i in range(nr)], 'num': [str(100 + 3 * i) for i in range(nr)],
@@ -238,7 +238,7 @@ def h5ad_files(draw, encs=('csr', 'csc', 'dense'), n_cols=None, dtype=None, laye
 
 @st.composite
 def fileop_cases(draw):
-    op = draw(st.sampled_from(['pivot', 'shuffle', 'subset', 'amalgamate', 'amalgamate', 'layer2x', 'h5copy', 'h5copy_tree']))
+    op = draw(st.sampled_from(['pivot', 'shuffle', 'subset', 'amalgamate', 'amalgamate', 'layer2x', 'layer2x', 'h5copy', 'h5copy_tree']))
     spec = {'kind': 'F', 'op': op}
     if op == 'pivot':
         spec['src'] = draw(h5ad_files(encs=('csr',), layers=(None,), layouts=('anndata', 'small_chunks', 'contiguous')))
@@ -289,7 +289,11 @@ def fileop_cases(draw):
         spec['dst_sparse'] = draw(st.booleans())
         spec['compression'] = draw(st.booleans())
     elif op == 'layer2x':
-        spec['src'] = draw(h5ad_files())
+        if draw(st.booleans()):
+            # a dense matrix stored in several small 2-d HDF5 chunks (more than two chunks' worth of elements)
+            spec['src'] = draw(h5ad_files(encs=('dense',), layouts=('small_chunks',), min_rows=3, max_rows=12, max_cols=10))
+        else:
+            spec['src'] = draw(h5ad_files())
         spec['compression'] = False
     elif op == 'h5copy':
         spec['src'] = draw(h5ad_files())
